@@ -14,7 +14,7 @@ WALL = {'quick': 150, 'thorough': 3000}
 CHUNK = 6
 DET_K = 3
 CASE_TIMEOUT = 600
-SELFTEST = {'quick': 24, 'thorough': 96}
+SELFTEST = {'quick': 8, 'thorough': 96}
 RULE = ('case kinds: pipeline (85%) = random real (sometimes complex) density on (r,theta,z) with even or odd '
         'theta counts, chi in {0,1}, adiabatic or kinetic electrons, 1-3 process grids; the driver\'s sequence '
         'getModes -> setLayout(mode_solve) -> solveEquation -> setLayout(v_parallel_2d) -> findPotential with '
